@@ -225,3 +225,13 @@ Definition sample_sr (m : mdp) (s a : nat) (u : Q) : nat * Q :=
 Definition sample_sor (m : pomdp) (s a : nat) (u1 u2 : Q) : nat * nat * Q :=
   let '(s1, r) := sample_sr (pm m) s a u1 in
   (s1, sample_dense (orow m s1 a) u2, r).
+
+(* src: include/AIToolbox/POMDP/Model.hpp:Model<M>::sampleOR (and POMDP/SparseModel.hpp) —
+   o = sampleProbability(O, observations_[a].row(s1), rand_); return (o, M::getExpectedReward(s,a,s1)) *)
+Definition sample_or (m : pomdp) (s a s1 : nat) (u : Q) : nat * Q :=
+  (sample_dense (orow m s1 a) u, nthq (row (R (pm m)) s) a).
+
+(* src: include/AIToolbox/MDP/SparseModel.hpp:SparseModel::setTransitionFunction and
+   POMDP/SparseModel.hpp:setObservationFunction — `if (checkDifferentSmall(0.0, p)) insert(...) = p`:
+   the sparse classes store only entries above 1e-6; the stored row is the model's own table *)
+Definition drop_small (v : vec) : vec := map (fun x => if eqSmall 0 x then 0 else x) v.
